@@ -392,9 +392,17 @@ func (fr *frame) applyContract(b *ssa.BasicBlock, site ssa.Instruction, con *Con
 func (fr *frame) inline(fn *ssa.Function, con *Contract, args []Val, bindings []Val, rt types.Type, reach Term, h Heap) (Val, Heap) {
 	x := fr.x
 	x.nfresh++
+	if con == nil && fn.Parent() != nil && nestedIn(fn, x.top) {
+		con = x.con // loops of nested anonymous functions take their invariants from the enclosing contract
+	}
 	sub := x.newFrame(fn, fmt.Sprintf("%s.i%d", fr.prefix, x.nfresh), fr.depth+1, con)
 	for k := range fr.pure {
 		sub.pure[k] = true
+	}
+	if fn.Parent() != nil {
+		for k, v := range fr.params {
+			sub.params[k] = v
+		}
 	}
 	for i, p := range fn.Params {
 		if i < len(args) {
@@ -411,7 +419,15 @@ func (fr *frame) inline(fn *ssa.Function, con *Contract, args []Val, bindings []
 	sub.entry = h
 	sub.encode(reach, h)
 	if len(sub.rets) == 0 {
+		fr.narrow = "false"
 		return x.freshVal("noret", rt), h
+	}
+	if len(sub.headers) > 0 {
+		var rr []Term
+		for _, r := range sub.rets {
+			rr = append(rr, r.reach)
+		}
+		fr.narrow = or(rr...)
 	}
 	if len(sub.rets) == 1 {
 		r := sub.rets[0]
